@@ -3,6 +3,7 @@ package simrt
 import (
 	"fmt"
 	"iter"
+	"math"
 	"reflect"
 	"sort"
 )
@@ -41,8 +42,52 @@ func MapSeq[M ~map[K]V, K comparable, V any](m M, site string) iter.Seq2[K, V] {
 			}
 		}
 		keys := make([]K, 0, n)
-		for k := range m {
+		var unfindable map[int]V // values of keys that do not equal themselves (NaN): m[k] cannot find them again
+		for k, v := range m {
+			if k != k {
+				if unfindable == nil {
+					unfindable = map[int]V{}
+				}
+				unfindable[len(keys)] = v
+			}
 			keys = append(keys, k)
+		}
+		if unfindable != nil {
+			// keep each such value with its key through sorting and permutation
+			type kv struct {
+				k K
+				v V
+				u bool
+			}
+			pairs := make([]kv, len(keys))
+			for i, k := range keys {
+				v, u := unfindable[i]
+				pairs[i] = kv{k, v, u}
+			}
+			sort.SliceStable(pairs, func(i, j int) bool {
+				return lessReflect(reflect.ValueOf(pairs[i].k), reflect.ValueOf(pairs[j].k))
+			})
+			if s := S; s != nil {
+				perm := s.permutation(n, site)
+				pp := make([]kv, n)
+				for i, j := range perm {
+					pp[i] = pairs[j]
+				}
+				pairs = pp
+			}
+			for _, p := range pairs {
+				v := p.v
+				if !p.u {
+					var ok bool
+					if v, ok = m[p.k]; !ok {
+						continue
+					}
+				}
+				if !yield(p.k, v) {
+					return
+				}
+			}
+			return
 		}
 		sortKeys(keys)
 		if s := S; s != nil {
@@ -176,6 +221,9 @@ func sortKeys[K comparable](keys []K) {
 	})
 }
 
+// LessReflect is the canonical order of map keys used by the seams.
+func LessReflect(a, b reflect.Value) bool { return lessReflect(a, b) }
+
 func lessReflect(a, b reflect.Value) bool {
 	if a.Kind() == reflect.Interface {
 		a = a.Elem()
@@ -196,11 +244,15 @@ func lessReflect(a, b reflect.Value) bool {
 	case reflect.Bool:
 		return !a.Bool() && b.Bool()
 	case reflect.Float32, reflect.Float64:
-		x, y := a.Float(), b.Float()
-		if x != x || y != y { // NaN: order by bits
-			return fmt.Sprintf("%x", x) < fmt.Sprintf("%x", y)
+		// a total order that includes NaNs and tells -0 from +0: by bits, sign-adjusted
+		ord := func(f float64) uint64 {
+			u := math.Float64bits(f)
+			if u>>63 == 1 {
+				return ^u
+			}
+			return u | 1<<63
 		}
-		return x < y
+		return ord(a.Float()) < ord(b.Float())
 	case reflect.Struct:
 		for i := 0; i < a.NumField(); i++ {
 			if lessReflect(a.Field(i), b.Field(i)) {
